@@ -83,9 +83,9 @@ theorem NoEv.leaves : LeavesQ E (fun s _ => NoEv m N s) (fun _ => false) := by
     rcases hg s.probe with hnone | ⟨hsame, _⟩
     · rw [hnone] at hd; cases hd
     · have h0 := h (by rw [← hsame]; exact hd) (by rw [← hnum]; exact hn)
-      rcases hfl with ⟨h1, h2⟩ | ⟨h1, h2⟩
+      rcases hfl with ⟨h1, h2⟩ | h1
       · exact ⟨by rw [h1]; exact h0.1, by rw [h2]; exact h0.2⟩
-      · exact ⟨h1, h2⟩
+      · rw [h1] at hd; cases hd
   · intro s _ hd _; simp [Probe.clear] at hd
   · intro s _ hd _; simp [Probe.clear] at hd
   · intro s _ hd _; simp [Probe.clear] at hd
@@ -154,6 +154,81 @@ theorem NoEv.step (s : State) (op : Op) (orc : Oracle) (h : NoEv m N s) (hop : N
   have hrun := (L.runOp op
     (fun t _ hl => L.loopBranch t hl (NoEv.start m N) (fun _ _ _ => ⟨fun _ hc => hc⟩))
     (fun b hb hd rest hdec => NoEv.recvOk m N hd (hop b hb hd rest hdec))).run ⟨s, [], orc⟩ h
+  unfold Foca.step
+  cases hr : Foca.runOp E op ⟨s, [], orc⟩ with
+  | stuck x => trivial
+  | ok r c => rw [hr] at hrun; exact hrun
+  | err e c => rw [hr] at hrun; exact hrun
+
+/-- while the probe targets `m` under number `N`, the round counts as answered -/
+def HasEv (m : Member) (N : Nat) (s : State) : Prop :=
+  s.probe.direct = some m → s.probe.number = N → s.probe.succeeded = true
+
+theorem HasEv.leaves : LeavesQ E (fun s _ => HasEv m N s) (fun _ => false) := by
+  refine LeavesQ.of_core E ?_ ?_ ?_ ?_ ?_ ?_ ?_
+  · intro s s' _ _ _ _ h5 h
+    unfold HasEv at *
+    rw [h5]; exact h
+  · intro g hg hq s h
+    unfold HasEv at *
+    simp only
+    intro hd hn
+    obtain ⟨hnum, hfl⟩ := hq s.probe
+    rcases hg s.probe with hnone | ⟨hsame, _⟩
+    · rw [hnone] at hd; cases hd
+    · have h0 := h (by rw [← hsame]; exact hd) (by rw [← hnum]; exact hn)
+      rcases hfl with ⟨h1, h2⟩ | h1
+      · unfold Probe.succeeded at *
+        rw [h1, h2]; exact h0
+      · rw [h1] at hd; cases hd
+  · intro s _ hd _; simp [Probe.clear] at hd
+  · intro s _ hd _; simp [Probe.clear] at hd
+  · intro s _ hd _; simp [Probe.clear] at hd
+  · intro s _ h; exact h
+  · intro s cfg sc h; exact h
+
+/-- the two evidence writes only ever add evidence -/
+theorem HasEv.recvOk (h : Header) : RecvOk (fun s _ => HasEv m N s) h := by
+  refine ⟨fun n _ => ⟨fun c hc => ?_⟩, fun o n _ => ⟨fun c hc => ?_⟩⟩
+  · simp only [modS_run]
+    unfold HasEv at *
+    simp only
+    unfold Probe.receiveAck
+    split
+    · intro _ _
+      simp [Probe.succeeded, Gen.probeSucceeded]
+    · exact hc
+  · simp only [modS_run]
+    unfold HasEv at *
+    simp only
+    unfold Probe.receiveIndirectAck
+    split
+    · exact hc
+    · split
+      · intro _ _
+        simp [Probe.succeeded, Gen.probeSucceeded]
+      · exact hc
+
+/-- **Once answered, a round stays answered** until the next probe timer: any call other than the delivery of a
+    probe timer — any datagram, stale or contradicting gossip, duplicate Acks, other timers, API calls — keeps
+    `HasEv m N`. -/
+theorem HasEv.step (s : State) (op : Op) (orc : Oracle) (h : HasEv m N s) (hop : ∀ tok, op ≠ .timer (.probe tok)) :
+    match Foca.step E s op orc with
+    | .done s' _ _ _ => HasEv m N s'
+    | .stuck _ => True := by
+  have L := HasEv.leaves E m N
+  have hrun := (L.runOp op (fun t ht hl => by
+    by_cases hp : t.loopNo = some 0
+    · cases t with
+      | probe tok => exact absurd ht (hop tok)
+      | pa tok => simp [Timer.loopNo] at hp
+      | pad tok => simp [Timer.loopNo] at hp
+      | pg tok => simp [Timer.loopNo] at hp
+      | indirect p tok => simp [Timer.isLoop] at hl
+      | s2d m inc tok => simp [Timer.isLoop] at hl
+      | rm m => simp [Timer.isLoop] at hl
+    · exact L.periodicBranch t hl hp (fun _ _ _ => ⟨fun _ hc => hc⟩))
+    (fun b _ hd _ _ => HasEv.recvOk m N hd)).run ⟨s, [], orc⟩ h
   unfold Foca.step
   cases hr : Foca.runOp E op ⟨s, [], orc⟩ with
   | stuck x => trivial
